@@ -248,7 +248,23 @@ def validate_follow(traces, workdir):
                 return 0 if off == (0, 0) else idx.get((l, off), -99)
             nscn += 1
             rows = [{"a": "Reset", "scn": scn}]
+            # the instance a leader restart replaces may still fire hooks after the restart has
+            # been recorded: its joins, entries and deliveries are not the new instance's
+            connected, joined_since = set(), set()
             for e in evs:
+                if e["e"] == "lrestart":
+                    connected = {k for k in connected if k[0] != e["l"]}
+                    joined_since.discard(e["l"])
+                elif e["e"] == "connect":
+                    connected.add((e["l"], e["f"]))
+                elif e["e"] == "join":
+                    if (e["l"], e["f"]) not in connected:
+                        continue
+                    joined_since.add(e["l"])
+                elif e["e"] == "entry" and e["l"] not in joined_since:
+                    continue
+                elif e["e"] == "deliver" and (e["l"], e["f"]) not in connected:
+                    continue
                 if e["e"] == "connect":
                     rows.append({"a": "connect", "l": e["l"], "f": e["f"], "tabs": {t: ix(e["l"], o) for t, o in e["tabs"].items()}, "earliest": ix(e["l"], e["earliest"])})
                 elif e["e"] == "join":
